@@ -15,8 +15,21 @@
      TreeList | None       option nat          (object identity = index in r_tls)
      tree factory          option nat          (Some i: <TreeList i>.new_tree, None: self.tree_factory)
      Tree                  T                   (immutable value; attribute assignment = new value)
-     captured comments     list str            (None and [] are not distinguished) *)
+     captured comments     list str            (None and [] are not distinguished)
+     Taxon | None          otaxon = option (nat * str)  (position in its namespace, label)
+     set of strings        sset = list (option str)
+     namespace / tree-list factory   tns_factory / option tl_factory   (values: which object the call returns)
+     Product               gst                 (the object store with the list of tree lists it was given)
+   Interface operations whose Python meaning is trusted (everything else in Gen/Routes.v is compiled and proved
+   equal to Model/C13Model.v): the tokenizer methods tk_* over the token record model; ifc_build_tree
+   (NewickReader._parse_tree_statement: abstract, property C02 compiles it); the atomic object operations
+   (ifc_ns_factory, rd_register_ns, ifc_tree_list_factory, rd_register_tree_list, ifc_new_mapper, rd_ns_*,
+   ifc_ns_new_taxon, ifc_ns_require_taxon, ifc_mapper_add_token, sset_*, tx_*, ifc_accession, ifc_comments_*,
+   ifc_set_tree_label, ifc_product); the definitions ifc_get_taxon_namespace, ifc_get_taxon_symbol_mapper,
+   ifc_new_taxon_namespace, ifc_new_tree_list, ifc_parse_taxlabels, ifc_parse_translate, ifc_parse_taxa_block
+   are NOT interface any more: they restate model functions and the compiled methods are proved equal to them. *)
 From Coq Require Import ZArith List Bool.
+From Coq Require String. Import String.StringSyntax.
 From DV Require Import Model.PyPrims Model.C13Model.
 Import ListNotations.
 
@@ -109,6 +122,72 @@ Definition ifc_parse_translate (fuel : nat) (s : gst) (ns : option nat) : res (o
 Definition ifc_parse_taxa_block (fuel : nat) (s : gst) : res (unit * gst) :=
   do r <- parse_taxa_block lower upper c fuel (r_k s) (r_g s) ;;
   let '(k, g) := r in Ok (tt, st_set_kg s k g).
+(* a == b on two strings *)
+Definition o_eqb (a b : option str) : bool :=
+  match a, b with Some x, Some y => str_eqb x y | None, None => true | _, _ => false end.
+(* ---- TaxonNamespace / Taxon objects, label sets (atomic operations used by the compiled
+   _parse_taxlabels_statement and _parse_translate_statement) ---- *)
+(* a Taxon | None: its position in its namespace and its label *)
+Definition otaxon : Type := option (nat * str).
+Definition tx_label (t : otaxon) : option str := match t with Some (_, l) => Some l | None => None end.
+Definition tx_lower_label (t : otaxon) : option str := match t with Some (_, l) => Some (lower l) | None => None end.
+Definition tx_index (t : otaxon) : nat := match t with Some (i, _) => i | None => O end.
+Definition o_lower (t : option str) : option str := match t with Some x => Some (lower x) | None => None end.
+(* set([]), s.add(x), x in s  (of strings) *)
+Definition sset : Type := list (option str).
+Definition sset_empty : sset := [].
+Definition sset_add (l : sset) (x : option str) : sset := x :: l.
+Definition sset_mem (x : option str) (l : sset) : bool := existsb (o_eqb x) l.
+(* <namespace>._taxa, len(<namespace>), bool(<namespace>) (no members: falsy), get_taxon(label=..) (first
+   member whose lower-cased label equals the lower-cased argument), new_taxon(label=..) *)
+Definition rd_ns_members (s : gst) (ns : option nat) : list otaxon :=
+  map (fun p => Some p) (enum_from O (ns_taxa_at (r_k s) (on_get ns))).
+Definition rd_ns_len (s : gst) (ns : option nat) : Z := Z.of_nat (length (ns_taxa_at (r_k s) (on_get ns))).
+Definition rd_ns_truthy (s : gst) (o : option nat) : bool :=
+  match o with Some i => negb (is_nil (ns_taxa_at (r_k s) i)) | None => false end.
+Definition rd_ns_get_taxon (s : gst) (ns : option nat) (label : option str) : otaxon :=
+  let taxa := ns_taxa_at (r_k s) (on_get ns) in
+  match label with
+  | Some l => match ns_get_taxon lower taxa l with Some i => Some (i, nth i taxa []) | None => None end
+  | None => None
+  end.
+Definition ifc_ns_new_taxon (s : gst) (ns : option nat) (label : option str) : res (otaxon * gst) :=
+  let taxa := ns_taxa_at (r_k s) (on_get ns) in
+  match label with
+  | Some l => Ok (Some (length taxa, l), st_set_k s (set_ns_taxa (r_k s) (on_get ns) (taxa ++ [l])))
+  | None => Err OtherErr                              (* label=None: not modelled *)
+  end.
+(* try: <namespace>.require_taxon(label=..) except ImmutableTaxonNamespaceError: the result None is the
+   exception; `mutable` is <namespace>.is_mutable, which the compiled code follows as a local (a symbol
+   mapper constructed over the namespace sets it False) *)
+Definition ifc_ns_require_taxon (s : gst) (ns : option nat) (mutable : bool) (label : option str)
+  : res (option otaxon * gst) :=
+  let taxa := ns_taxa_at (r_k s) (on_get ns) in
+  match label with
+  | None => Err OtherErr                              (* require_taxon(label=None): not modelled *)
+  | Some l =>
+    match ns_get_taxon lower taxa l with
+    | Some i => Ok (Some (Some (i, nth i taxa [])), s)
+    | None => if mutable
+              then Ok (Some (Some (length taxa, l)), st_set_k s (set_ns_taxa (r_k s) (on_get ns) (taxa ++ [l])))
+              else Ok (None, s)
+    end
+  end.
+(* <mapper>.add_translate_token(token, taxon): the mapper sees the namespace object it manages *)
+Definition ifc_mapper_add_token (s : gst) (gm : option gmap) (tok : option str) (t : otaxon) : option gmap :=
+  match gm with
+  | Some (ns, m) =>
+    Some (ns, add_translate_token lower (mapper_set_ns m (ns_taxa_at (r_k s) ns))
+                (match tok with Some x => x | None => s2z "None" end) (tx_index t))
+  | None => None
+  end.
+(* for x in <finite list>: body  (the body may raise) *)
+Fixpoint for_res {A B : Type} (f : A -> B -> res A) (l : list B) (a : A) : res A :=
+  match l with
+  | [] => Ok a
+  | x :: r => do a' <- f a x ;; for_res f r a'
+  end.
+
 (* ---- the reader's registries and the factories it was given (atomic: object creation and list appends) ---- *)
 (* self.attached_taxon_namespace (a reader): None unless the route attached its namespace (namespace 0) *)
 Definition rd_reader_attached : option nat := if c_attached c then Some O else None.
@@ -117,9 +196,6 @@ Definition rd_ns_count (s : gst) : Z := Z.of_nat (length (g_reg (r_g s))).
 Definition rd_ns_at (s : gst) (i : Z) : option nat := nth_error (g_reg (r_g s)) (Z.to_nat i).
 Definition rd_registry (s : gst) : list nat := g_reg (r_g s).
 Definition rd_ns_label (s : gst) (i : nat) : option str := nth i (g_labels (r_g s)) None.
-(* a == b on two strings *)
-Definition o_eqb (a b : option str) : bool :=
-  match a, b with Some x, Some y => str_eqb x y | None, None => true | _, _ => false end.
 (* self._taxon_namespace_factory(label=title): dataset.new_taxon_namespace creates a namespace object;
    the pseudo-factories of TreeList / Tree return namespace 0 and set its label when it has none *)
 Definition ifc_ns_factory (s : gst) (title : option str) : res (option nat * gst) :=
@@ -212,6 +288,35 @@ Definition ifc_open_stream (s : gst) : res (unit * gst) := Ok (tt, s).
 
 End GenPrims.
 
+(* ---- reader-level methods (_read, read_tree_lists, read_dataset): factories as values, the Product tuple ---- *)
+Definition opt_is_none {A : Type} (o : option A) : bool := match o with None => true | Some _ => false end.
+(* the tree-list factory a reader was given (only consulted when trees are read) *)
+Definition otlf_get (o : option tl_factory) : tl_factory := match o with Some f => f | None => TLNew end.
+
+Section ReaderPrims.
+Variable T : Type.
+(* the type of <Reader>._read as the DataReader methods call it: the reader attributes it consults
+   (attached_taxon_namespace, exclude_trees, exclude_chars), then its six parameters; result: the Product *)
+Definition reader_read_t : Type :=
+  nat -> gst T -> option nat -> bool -> bool -> unit -> tns_factory -> option tl_factory -> option unit -> option unit
+  -> option unit -> res (gst T * gst T).
+(* self.Product(taxon_namespaces=.., tree_lists=<list of TreeList objects>, char_matrices=..): the object store
+   as it is now with the given list of tree lists; <product>.tree_lists are those lists (their trees) *)
+Definition ifc_product (s : gst T) (tree_lists : list nat) : gst T := mkRs (r_k s) (r_g s) (r_tls s) tree_lists.
+Definition rd_tree_lists (s : gst T) : list nat := r_tlreg s.          (* self._tree_lists *)
+(* taxon_namespace_factory(label=..) / tree_list_factory(label=.., taxon_namespace=..) called directly *)
+Definition ifc_ns_factory_of (fac : tns_factory) (s : gst T) (title : option str) : res (option nat * gst T) :=
+  ifc_ns_factory T (mkNsCfg false fac) s title.
+Definition ifc_tree_list_factory_of (o : option tl_factory) (s : gst T) (ns : option nat) (title : option str)
+  : res (option nat * gst T) :=
+  match o with
+  | Some f => ifc_tree_list_factory T f s ns title
+  | None => Err TypeErr                                  (* None(..) *)
+  end.
+(* `for x in <iterator>: pass`: the iterator is run to its end; what it handed out is dropped *)
+Definition ydrain {X : Type} (a : yres (option T) X) : res X := snd a.
+End ReaderPrims.
+
 (* ---- the entry points with offsets (Tree / TreeList ._parse_and_create_from_stream) ---- *)
 Section EntryPrims.
 Variable T : Type.
@@ -224,10 +329,26 @@ Variable T : Type.
    that object (tlf = TLFixed: its _tree_list_pseudofactory hands out the target itself). *)
 Record reader_obj : Type := mkReader {
   rd_attached : bool;
-  rd_run : bool -> tl_factory -> nat -> doc -> list T -> res (list (list T) * list T)
+  rd_run : bool -> tl_factory -> nat -> doc -> list T -> res (list (list T) * list T);
+  (* rd_dataset attached fuel stream <dataset.attached_taxon_namespace> <taxon_namespace> exclude_trees exclude_chars:
+     reader.read_dataset(stream=.., dataset=.., taxon_namespace=.., exclude_trees=.., exclude_chars=.., ..): the
+     tree lists the DataSet's new_tree_list created (their trees) *)
+  rd_dataset : bool -> nat -> doc -> option nat -> option nat -> bool -> bool -> res (list (list T))
 }.
 (* reader.attached_taxon_namespace = <the namespace of the route> *)
-Definition rd_attach (r : reader_obj) : reader_obj := mkReader true (rd_run r).
+Definition rd_attach (r : reader_obj) : reader_obj := mkReader true (rd_run r) (rd_dataset r).
+(* a DataSet as the entry point sees it: its attached_taxon_namespace and its tree lists *)
+Definition dsval : Type := (option nat * list (list T))%type.
+Definition ds_new : dsval := (None, []).                                          (* DataSet(label=..) *)
+Definition ds_attach (d : dsval) (o : option nat) : dsval := (o, snd d).          (* d.attached_taxon_namespace = o *)
+Definition ifc_read_dataset (r : reader_obj) (fuel : nat) (s : unit) (stream : doc) (d : dsval) (tns : option nat)
+                            (et ec : bool) : res (unit * dsval * unit) :=
+  do bl <- rd_dataset r (rd_attached r) fuel stream (fst d) tns et ec ;; Ok (tt, (fst d, snd d ++ bl), s).
+(* the iterator Tree.yield_from_files([one file], ..) returns: the trees it hands out, how it ends *)
+Definition yielder_t : Type := (list T * res unit)%type.
+Definition yl_items (y : yielder_t) : list T := fst y.
+Definition yl_end (y : yielder_t) : res unit := snd y.
+Definition yl_file_index (y : yielder_t) : Z := 0%Z.          (* <iterator>.current_file_index: one file *)
 Definition ifc_read_tree_lists (r : reader_obj) (tlf : tl_factory) (fuel : nat) (s : unit) (stream : doc) (tl : list T)
   : res (list (list T) * list T * unit) :=
   do x <- rd_run r (rd_attached r) tlf fuel stream tl ;; Ok (fst x, snd x, s).
@@ -239,6 +360,16 @@ End EntryPrims.
    translated code only does so after an `is None` test or default) *)
 (* self.attached_taxon_namespace of a tree iterator: the namespace of the route is namespace 0 *)
 Definition rd_attached_namespace : option nat := Some O.
+Definition oz_eqb (o : option Z) (x : Z) : bool := match o with Some y => Z.eqb y x | None => false end.   (* o == x *)
+Definition oz_add (o : option Z) (d : Z) : option Z := match o with Some y => Some (y + d)%Z | None => None end. (* o += d; None: TypeError, not reached *)
+Fixpoint enum_z_from {A : Type} (i : Z) (l : list A) : list (Z * A) :=
+  match l with [] => [] | x :: r => (i, x) :: enum_z_from (i + 1)%Z r end.
+Definition enum_z {A : Type} (l : list A) : list (Z * A) := enum_z_from 0%Z l.                 (* enumerate(l) *)
+(* lambda label : <namespace object>: returns the namespace of the route (handle 0), sets no label *)
+Definition fac_const (o : option nat) : tns_factory := FacFixed false.
+(* a is b on two namespace objects *)
+Definition on_same (a b : option nat) : bool :=
+  match a, b with Some x, Some y => Nat.eqb x y | None, None => true | _, _ => false end.
 Definition oz_is_none (o : option Z) : bool := match o with None => true | Some _ => false end.
 Definition oz_get (o : option Z) : Z := match o with Some i => i | None => 0%Z end.
 Definition len_z {A : Type} (l : list A) : Z := Z.of_nat (length l).
